@@ -238,7 +238,7 @@ def run(ctx):
     ctx.require_actions("WriteBufImplMC", ["IWrite", "IWriteSeq", "IReg", "IUnreg", "ILose", "ILoseW", "IOther", "IDoWrite", "IEmit"])
 
     traces = []
-    depth = ctx.pick(4, 6)
+    depth = ctx.pick(4, 5)
     nst = 0
     for cfg in ({"bufferSize": 2, "sendLimit": 3}, {"bufferSize": 4, "sendLimit": 1}):
         ts, n = bfs(cfg, depth, SMALL_OPS)
@@ -248,7 +248,7 @@ def run(ctx):
     ctx.extra["exhaustive_depth"] = depth
     ctx.extra["exhaustive_states_of_real_descriptor"] = nst
     ctx.log("exhaustive: %d maximal histories, %d distinct descriptor states" % (len(traces), nst))
-    nsmall, nbig = ctx.pick((800, 60), (40000, 2000))
+    nsmall, nbig = ctx.pick((800, 60), (10000, 800))
     for i in range(nsmall):
         traces.append(random_history(ctx.rng, ctx.rng.randrange(1 << 30), False))
     for i in range(nbig):
@@ -256,7 +256,7 @@ def run(ctx):
 
     # spec -> code: behaviours of the modelled algorithm (ops + acceptance counts chosen by TLC) are run on the real
     # descriptor; the micro-events predicted by the model are compared (impl_drift), and TLC validates the real ones.
-    behs = ctx.simulate("WriteBufImplSim", "WriteBufImplSim.cfg", num=ctx.pick(25, 600), depth=15)
+    behs = ctx.simulate("WriteBufImplSim", "WriteBufImplSim.cfg", num=ctx.pick(25, 250), depth=15)
     drift = 0
     for b in behs:
         t = run_history(b["cfg"], b["ops"], 0)
